@@ -135,7 +135,12 @@ def run(prog: Program, L: Ledger) -> None:
         raise AnalysisError("Driver.irun / call_observers / converged anchor missing")
     SPLICED.clear()
     irun = _splice_delegated_generator(prog, L, driver, irun)
-    irun, callobs, conv = flat(prog, irun, driver), flat(prog, callobs, driver), flat(prog, conv, driver)
+    # public pieces the run loop was split into (start_run / finish_step / observer_is_due …) are seen through; the anchors
+    # of the rules stay calls
+    KEEP15 = ("validate_simulation", "step", "call_observers", "converged", "irun", "run", "srun", "write_header", "to_dict", "from_dict", "close")
+    irun = flat(prog, irun, driver, keep=KEEP15, public_methods=True)
+    callobs = flat(prog, callobs, driver, keep=KEEP15, public_methods=True)
+    conv = flat(prog, conv, driver, keep=tuple(k for k in KEEP15 if k != "converged"), public_methods=True)
     # irun must not be overridden silently by subclasses with a different loop
     for sub in prog.subclasses(driver, strict=True):
         for m in ("irun", "call_observers", "converged"):
@@ -325,7 +330,7 @@ def run(prog: Program, L: Ledger) -> None:
             if f is None:
                 continue
             n_entry += 1
-            _check_entry(L, d, flat(prog, f, d), is_gen, entry)
+            _check_entry(L, d, flat(prog, f, d, keep=("irun", "step", "validate_simulation", "call_observers", "converged"), public_methods=True), is_gen, entry)
     L.floor("run entry points (driver class × run/srun)", n_entry, 8)
 
 
